@@ -77,7 +77,9 @@ def watchdog(seconds):
     def _h(signum, frame):
         raise Watchdog("watchdog %.1fs" % seconds)
     old = signal.signal(signal.SIGALRM, _h)
-    signal.setitimer(signal.ITIMER_REAL, seconds)
+    # periodic: if the first Watchdog lands inside a generator finaliser and is swallowed there
+    # ("Exception ignored in generator ..."), the next one still interrupts the guarded body
+    signal.setitimer(signal.ITIMER_REAL, seconds, max(0.5, seconds / 4.0))
     try:
         yield
     finally:
@@ -250,17 +252,22 @@ def pmap(fn, items, procs=None, initfn=None, chunksize=1, ordered=True):
         for it in items:
             out.append(fn(it))
         return out
+    import concurrent.futures as cf
     ctx = multiprocessing.get_context("fork")
-    with ctx.Pool(min(procs, len(items)), initializer=_worker_init,
-                  initargs=(fn, initfn)) as pool:
-        it = pool.imap(_worker_call, items, chunksize) if ordered else \
-            pool.imap_unordered(_worker_call, items, chunksize)
-        out = []
-        for tag, val in it:
-            if tag != "ok":
-                pool.terminate()
-                raise BrokenCheck("worker failed: " + val)
-            out.append(val)
+    out = []
+    # ProcessPoolExecutor (not multiprocessing.Pool): a worker that dies makes the map raise
+    # BrokenProcessPool instead of blocking the parent forever
+    with cf.ProcessPoolExecutor(min(procs, len(items)), mp_context=ctx, initializer=_worker_init,
+                                initargs=(fn, initfn)) as pool:
+        try:
+            for tag, val in pool.map(_worker_call, items, chunksize=chunksize):
+                if tag != "ok":
+                    for p_ in list(getattr(pool, "_processes", {}).values()):
+                        p_.terminate()
+                    raise BrokenCheck("worker failed: " + val)
+                out.append(val)
+        except cf.process.BrokenProcessPool as ex:
+            raise BrokenCheck("a worker process died: %r" % (ex,))
     return out
 
 
